@@ -593,6 +593,34 @@ func (g *G) genInvalRace(id string) *History {
 	return h
 }
 
+// genRevalRace: two validations of one stale response overlap. The slow one is answered 304 (the origin
+// still had the old representation when it was asked), the fast one gets the new representation. When the
+// 304 arrives, what it confirms is no longer what the store holds.
+func (g *G) genRevalRace(id string) *History {
+	h := &History{ID: id, Prop: g.prop, Class: "reval-race", Backend: pick(g, "mem", "mem", "fs"), Logger: "discard", Concurrent: true}
+	url := "http://a.test/rr"
+	h.Ops = append(h.Ops, Op{Op: "req", AtNs: 0, Method: "GET", URL: url, Replies: []Reply{{Status: 200, BodyFail: -1, Body: "v1",
+		Hdr: Hdr{{"Date", dateAt(0, 0)}, {"Cache-Control", "max-age=5"}, {"Etag", `"v1"`}}}}})
+	at := 20 * sec
+	slow := pick(g, 3*sec, 2*sec, 5*sec)
+	fast := pick(g, sec, sec/2, sec+1)
+	a := Op{Op: "req", AtNs: at, Method: "GET", URL: url, Replies: []Reply{{Status: 304, BodyFail: -1, DelayNs: slow,
+		Hdr: Hdr{{"Date", dateAt(at+slow, 0)}, {"Cache-Control", "max-age=1000"}, {"Etag", `"v1"`}}}}}
+	b := Op{Op: "req", AtNs: at, Method: "GET", URL: url, Replies: []Reply{{Status: 200, BodyFail: -1, Body: "v2", DelayNs: fast,
+		Hdr: Hdr{{"Date", dateAt(at+fast, 0)}, {"Cache-Control", "max-age=1000"}, {"Etag", `"v2"`}}}}}
+	if g.chance(0.5) {
+		h.Ops = append(h.Ops, a, b)
+	} else {
+		h.Ops = append(h.Ops, b, a)
+	}
+	for i := 0; i < 1+g.r.Intn(2); i++ {
+		at += 20 * sec
+		h.Ops = append(h.Ops, Op{Op: "req", AtNs: at, Method: "GET", URL: url, Replies: []Reply{{Status: 200, BodyFail: -1, Body: "late",
+			Hdr: Hdr{{"Date", dateAt(at, 0)}, {"Cache-Control", "max-age=1000"}, {"Etag", `"v3"`}}}}})
+	}
+	return h
+}
+
 // genSIE: stale-if-error around every edge — the directive on the stored response, the request,
 // both or neither; staleness just inside / on / outside the window when the failing exchange STARTS
 // and when it ENDS (slow failing origins); transport errors and every failure status; requests that
